@@ -9,6 +9,7 @@ pub mod pbwire;
 pub mod refmodel;
 pub mod statespace;
 pub mod textparse;
+pub mod vecdrv;
 pub mod vsched;
 
 use serde_json::{json, Value};
